@@ -401,6 +401,8 @@ def run_check(chk, argv):
         reqs, idx = [], []
         for i, (case, obs, f) in enumerate(results):
             r = chk.model_request(case)
+            if r is None and hasattr(chk, "model_request2") and not (isinstance(obs, dict) and "harness_exception" in obs):
+                r = chk.model_request2(case, obs)         # request that replays behaviour observed on the implementation
             if r is not None:
                 reqs.append(r); idx.append(i)
         if reqs:
